@@ -1,6 +1,10 @@
 import RoaringModel.Safe
 import RoaringModel.Lemmas.BStoreRange
 import RoaringModel.Lemmas.ArrFacts
+import RoaringModel.Lemmas.StoreFacts
+import RoaringModel.Lemmas.BitmapQuery
+import RoaringModel.Lemmas.BitmapMut2
+import RoaringModel.Lemmas.SpecFacts
 /-!
 # The `Safe_*` side conditions follow from well-formedness (C16)
 
@@ -295,4 +299,467 @@ theorem safe_interLenBitmap (a b : BStore) (ha : a.Inv) (hb : b.Inv) : a.Safe_in
   omega
 
 end BStore
+
+/-! ## ArrayStore -/
+namespace Arr
+
+theorem length_le (v : List Nat) (hv : Arr.Inv v) : v.length ≤ 65536 :=
+  (sorted_bounded_length v hv.1 0 65536 (fun x hx => ⟨Nat.zero_le _, by have := hv.2 x hx; omega⟩)).1
+
+/-- std's `binary_search` contract holds for the model's `bsearch` (any vector) -/
+theorem safe_bsearch (v : List Nat) (x : Nat) : Safe_bsearch v x := by
+  unfold Safe_bsearch bsearch lowerBound
+  refine ⟨(List.takeWhile_sublist _).length_le, ?_⟩
+  intro h
+  simp only [beq_iff_eq] at h
+  exact (List.getElem?_eq_some_iff.1 h).1
+
+theorem filter_disjoint_length (v : List Nat) (p q : Nat → Bool) (h : ∀ x, ¬ (p x = true ∧ q x = true)) :
+    (v.filter p).length + (v.filter q).length ≤ v.length := by
+  induction v with
+  | nil => simp
+  | cons a v ih =>
+    have := h a
+    simp only [List.filter_cons, List.length_cons]
+    cases hp : p a <;> cases hq : q a <;> simp_all <;> omega
+
+theorem rangePos_eq (v : List Nat) (hs : Sorted v) (s e : Nat) :
+    rangePos v s e = ((v.filter (· < s)).length,
+      (v.filter (· < s)).length + (v.filter (fun x => decide (s ≤ x) && decide (x ≤ e))).length) := by
+  have hw : Sorted (v.filter (s ≤ ·)) := sorted_filter hs _
+  unfold rangePos
+  simp only [bsearch_eq v hs s, drop_filter_lt v hs, bsearch_eq _ hw]
+  rw [← rangeCount_eq, filter_le_length _ hw]
+  by_cases hm : e ∈ v.filter (s ≤ ·) <;>
+    simp only [hm, decide_true, decide_false, if_true, if_false, Nat.add_zero]
+
+theorem rangeCount_le (v : List Nat) (hs : Sorted v) (s e : Nat) (hse : s ≤ e) :
+    (v.filter (fun x => decide (s ≤ x) && decide (x ≤ e))).length ≤ e - s + 1 :=
+  (sorted_bounded_length _ (sorted_filter hs _) s (e - s + 1) (by
+    intro x hx
+    have := (List.mem_filter.mp hx).2
+    simp only [Bool.and_eq_true, decide_eq_true_eq] at this
+    omega)).1
+
+theorem rangePos_le (v : List Nat) (s e : Nat) :
+    (v.filter (· < s)).length + (v.filter (fun x => decide (s ≤ x) && decide (x ≤ e))).length ≤ v.length := by
+  apply filter_disjoint_length
+  intro x ⟨h1, h2⟩
+  simp only [Bool.and_eq_true, decide_eq_true_eq] at h1 h2
+  omega
+
+theorem safe_insertRange (v : List Nat) (hv : Arr.Inv v) (s e : Nat) (hse : s ≤ e) : Safe_insertRange v s e := by
+  unfold Safe_insertRange
+  rw [rangePos_eq v hv.1]
+  have h1 := rangePos_le v s e
+  have h2 := rangeCount_le v hv.1 s e hse
+  simp only []
+  refine ⟨by omega, by omega, h1, hse, by omega⟩
+
+theorem safe_removeRange (v : List Nat) (hv : Arr.Inv v) (s e : Nat) : Safe_removeRange v s e := by
+  unfold Safe_removeRange
+  rw [rangePos_eq v hv.1]
+  have h1 := rangePos_le v s e
+  simp only []
+  refine ⟨by omega, by omega, h1⟩
+
+theorem safe_containsRange (v : List Nat) (s e : Nat) (hse : s ≤ e) : Safe_containsRange v s e :=
+  ⟨hse, by omega⟩
+
+theorem safe_toBitmap (v : List Nat) (hv : Arr.Inv v) : Safe_toBitmap v := by
+  refine ⟨fun i hi => ?_, ?_⟩
+  · have := hv.2 i hi
+    unfold wkey wbit
+    exact ⟨by omega, by omega⟩
+  · have h : v.length = BStore.popSum (Store.arrToBitmapBits v) := (BStore.arrToBitmap_spec v hv).1.len
+    rw [BStore.tryFrom_spec, if_pos h]; rfl
+
+end Arr
+
+/-! ## Store / Container -/
+namespace Store
+
+theorem len_le (st : Store) (h : st.Inv) : st.len ≤ 65536 := by
+  cases st with
+  | array v => exact Arr.length_le v h
+  | bitmap b => exact BStore.len_le b h
+
+theorem safe_insert (st : Store) (h : st.Inv) (i : Nat) (hi : i < 65536) : st.Safe_insert i := by
+  cases st with
+  | array v => exact Arr.safe_bsearch v i
+  | bitmap b => exact BStore.safe_insert b h i hi
+
+theorem safe_remove (st : Store) (h : st.Inv) (i : Nat) (hi : i < 65536) : st.Safe_remove i := by
+  cases st with
+  | array v => exact Arr.safe_bsearch v i
+  | bitmap b => exact BStore.safe_remove b h i hi
+
+theorem safe_insertRange (st : Store) (h : st.Inv) (s e : Nat) (hse : s ≤ e) (he : e < 65536) :
+    st.Safe_insertRange s e := by
+  cases st with
+  | array v => exact Arr.safe_insertRange v h s e hse
+  | bitmap b => exact BStore.safe_insertRange b h s e hse he
+
+theorem safe_removeRange (st : Store) (h : st.Inv) (s e : Nat) (hse : s ≤ e) (he : e < 65536) :
+    st.Safe_removeRange s e := by
+  cases st with
+  | array v => exact Arr.safe_removeRange v h s e
+  | bitmap b => exact BStore.safe_removeRange b h s e hse he
+
+theorem safe_containsRange (st : Store) (h : st.Inv) (s e : Nat) (hse : s ≤ e) (he : e < 65536) :
+    st.Safe_containsRange s e := by
+  cases st with
+  | array v => exact Arr.safe_containsRange v s e hse
+  | bitmap b => exact BStore.safe_containsRange b h s e hse he
+
+theorem safe_rank (st : Store) (h : st.Inv) (i : Nat) (hi : i < 65536) : st.Safe_rank i := by
+  cases st with
+  | array v => trivial
+  | bitmap b => exact BStore.safe_rank b h i hi
+
+theorem safe_select (st : Store) (h : st.Inv) (n : Nat) : st.Safe_select n := by
+  cases st with
+  | array v => trivial
+  | bitmap b => exact BStore.safe_select b h n
+
+theorem rank_le_len (st : Store) (h : st.Inv) (i : Nat) (hi : i < 65536) : st.rank i ≤ st.len := by
+  rw [rank_spec st h i hi, len_eq st h]
+  exact List.length_filter_le _ _
+
+theorem rank_mono (st : Store) (h : st.Inv) (i j : Nat) (hij : i ≤ j) (hj : j < 65536) : st.rank i ≤ st.rank j := by
+  rw [rank_spec st h i (by omega), rank_spec st h j hj, ← List.countP_eq_length_filter, ← List.countP_eq_length_filter]
+  apply List.countP_mono_left
+  intro x _ hx
+  simp only [decide_eq_true_eq] at hx ⊢
+  omega
+
+end Store
+
+namespace Container
+
+theorem safe_insertRange (c : Container) (h : c.store.Inv) (s e : Nat) (hse : s ≤ e) (he : e < 65536) :
+    c.Safe_insertRange s e := by
+  unfold Safe_insertRange
+  refine ⟨hse, by omega, ?_⟩
+  cases hs : c.store with
+  | array v =>
+    rw [hs] at h
+    simp only []
+    split
+    · exact ⟨Arr.safe_toBitmap v h, BStore.safe_insertRange _ (BStore.arrToBitmap_spec v h).1 s e hse he⟩
+    · exact Arr.safe_insertRange v h s e hse
+  | bitmap b =>
+    rw [hs] at h
+    exact BStore.safe_insertRange b h s e hse he
+
+theorem safe_removeSmallest (c : Container) (h : c.store.Inv) (n : Nat) (hn : n ≤ c.len) :
+    c.Safe_removeSmallest n := by
+  unfold Safe_removeSmallest
+  unfold Container.len at hn
+  cases hs : c.store with
+  | array v => rw [hs] at hn; exact hn
+  | bitmap b =>
+    rw [hs] at h hn
+    simp only []
+    refine ⟨hn, ?_⟩
+    split
+    · exact BStore.safe_toArray b h
+    · exact BStore.safe_removeSmallest b h n
+
+theorem safe_removeBiggest (c : Container) (h : c.store.Inv) (n : Nat) (hn : n ≤ c.len) :
+    c.Safe_removeBiggest n := by
+  unfold Safe_removeBiggest
+  unfold Container.len at hn
+  cases hs : c.store with
+  | array v => rw [hs] at hn; exact hn
+  | bitmap b =>
+    rw [hs] at h hn
+    simp only []
+    refine ⟨hn, ?_⟩
+    split
+    · exact BStore.safe_toArray b h
+    · exact BStore.safe_removeBiggest b h n
+
+theorem safe_ensureCorrectStore (c : Container) (h : c.store.Inv) : c.Safe_ensureCorrectStore := by
+  unfold Safe_ensureCorrectStore
+  cases hs : c.store with
+  | array v => rw [hs] at h; exact fun _ => Arr.safe_toBitmap v h
+  | bitmap b => rw [hs] at h; exact fun _ => BStore.safe_toArray b h
+
+end Container
+
+/-! ## RoaringBitmap -/
+namespace Bitmap
+
+/-- the stores of a bitmap satisfy the structural invariant (all that the arithmetic needs) -/
+def StoresInv (b : Bitmap) : Prop := ∀ c ∈ b, c.store.Inv
+
+theorem WF.storesInv {b : Bitmap} (h : b.WF) : StoresInv b := fun c hc => Store.wf_inv _ (h.2 c hc).2
+
+theorem wf_length_le (b : Bitmap) (h : b.WF) : b.length ≤ 65536 := by
+  have := (Arr.sorted_bounded_length (b.map Container.key) h.1 0 65536 (by
+    intro k hk
+    obtain ⟨c, hc, rfl⟩ := List.mem_map.mp hk
+    have := (h.2 c hc).1
+    omega)).1
+  simpa using this
+
+theorem len_le_mul : ∀ (b : Bitmap), StoresInv b → len b ≤ 65536 * b.length
+  | [], _ => by simp [len_nil]
+  | c :: cs, h => by
+    rw [len_cons, List.length_cons]
+    have h1 := Store.len_le c.store (h c (by simp))
+    have h2 := len_le_mul cs (fun d hd => h d (by simp [hd]))
+    unfold Container.len
+    omega
+
+theorem storesInv_take {b : Bitmap} (h : StoresInv b) (i : Nat) : StoresInv (b.take i) :=
+  fun c hc => h c (List.mem_of_mem_take hc)
+
+theorem storesInv_drop {b : Bitmap} (h : StoresInv b) (i : Nat) : StoresInv (b.drop i) :=
+  fun c hc => h c (List.mem_of_mem_drop hc)
+
+theorem wf_len_le (b : Bitmap) (h : b.WF) : len b ≤ 4294967296 := by
+  have h1 := len_le_mul b h.storesInv
+  have h2 := wf_length_le b h
+  omega
+
+theorem safe_split (v : Nat) (hv : v < 4294967296) : Safe_split v := by
+  unfold Safe_split hi16; show _ < 2^16; omega
+
+theorem safe_join (k i : Nat) (hk : k < 65536) (hi : i < 65536) : Safe_join k i := by
+  unfold Safe_join join
+  rw [Nat.shiftLeft_eq]
+  constructor <;> (show _ < 2^32) <;> omega
+
+/-- std's `binary_search_by_key` contract holds for the model's `search` (any container vector) -/
+theorem safe_search (b : Bitmap) (key : Nat) : Safe_search b key := by
+  unfold Safe_search search
+  refine ⟨(List.takeWhile_sublist _).length_le, ?_⟩
+  simp only []
+  intro h
+  split at h
+  · rename_i c hc; exact (List.getElem?_eq_some_iff.1 hc).1
+  · cases h
+
+theorem safe_findContainerByKey (b : Bitmap) (key : Nat) : Safe_findContainerByKey b key := by
+  obtain ⟨h1, h2⟩ := safe_search b key
+  refine ⟨h1, ?_⟩
+  unfold findContainerByKey
+  cases hs : search b key with
+  | mk f loc =>
+    rw [hs] at h1 h2
+    cases f with
+    | true => exact h2 rfl
+    | false =>
+      simp only [List.length_append, List.length_cons, List.length_take, List.length_drop]
+      simp only [] at h1
+      omega
+
+theorem safe_len (b : Bitmap) (h : b.WF) : Safe_len b := by
+  have := wf_len_le b h
+  unfold Safe_len; show _ < 2^64; omega
+
+theorem safe_select : ∀ (b : Bitmap) (n : Nat), StoresInv b → Safe_select b n
+  | [], _, _ => trivial
+  | c :: cs, n, h => by
+    have hc := h c (by simp)
+    have hle := Store.len_le c.store hc
+    unfold Safe_select
+    split
+    · rename_i hn
+      unfold Container.len at hn
+      exact ⟨by show n < 2^16; omega, Store.safe_select _ hc n⟩
+    · exact ⟨by omega, safe_select cs _ (fun d hd => h d (by simp [hd]))⟩
+
+theorem safe_removeSmallest : ∀ (b : Bitmap) (n : Nat), StoresInv b → Safe_removeSmallest b n
+  | [], _, _ => trivial
+  | c :: cs, n, h => by
+    unfold Safe_removeSmallest
+    split
+    · exact safe_removeSmallest cs _ (fun d hd => h d (by simp [hd]))
+    · intro _; exact Container.safe_removeSmallest c (h c (by simp)) n (by omega)
+
+theorem safe_removeBiggestRev : ∀ (b : List Container) (n : Nat), StoresInv b → Safe_removeBiggestRev b n
+  | [], _, _ => trivial
+  | c :: cs, n, h => by
+    unfold Safe_removeBiggestRev
+    split
+    · exact safe_removeBiggestRev cs _ (fun d hd => h d (by simp [hd]))
+    · intro _; exact Container.safe_removeBiggest c (h c (by simp)) n (by omega)
+
+theorem safe_removeBiggest (b : Bitmap) (n : Nat) (h : StoresInv b) : Safe_removeBiggest b n :=
+  safe_removeBiggestRev b.reverse n (fun c hc => h c (List.mem_reverse.1 hc))
+
+theorem safe_rank (b : Bitmap) (h : b.WF) (v : Nat) (hv : v < 4294967296) : Safe_rank b v := by
+  have hs := safe_search b (hi16 v)
+  have hlen := wf_length_le b h
+  have hlo : lo16 v < 65536 := by unfold lo16; omega
+  refine ⟨safe_split v hv, hs, ?_⟩
+  have htake : ∀ i, len (b.take i) ≤ 4294967296 := by
+    intro i
+    have h1 := len_le_mul (b.take i) (storesInv_take h.storesInv i)
+    have h2 : (b.take i).length ≤ b.length := by simp [List.length_take]; omega
+    omega
+  cases hsr : search b (hi16 v) with
+  | mk f i =>
+    unfold Safe_search at hs; rw [hsr] at hs
+    cases f with
+    | false => simp only []; have := htake i; show _ < 2^64; omega
+    | true =>
+      have hi : i < b.length := hs.2 rfl
+      simp only [List.getElem?_eq_getElem hi]
+      have hc : b[i].store.Inv := h.storesInv _ (List.getElem_mem hi)
+      refine ⟨Store.safe_rank _ hc _ hlo, ?_⟩
+      have h1 := Store.rank_le_len _ hc _ hlo
+      have h2 := Store.len_le _ hc
+      have := htake i
+      unfold Container.rank
+      show _ < 2^64; omega
+
+theorem safe_rangeCardLoop (ek el : Nat) (hel : el < 65536) : ∀ (cs : List Container) (acc : Nat),
+    StoresInv cs → acc + 65536 * cs.length < 2^64 → Safe_rangeCardLoop ek el cs acc
+  | [], _, _, _ => trivial
+  | c :: cs, acc, h, hacc => by
+    have hc := h c (by simp)
+    have h2 := Store.len_le _ hc
+    have h1 := Store.rank_le_len _ hc _ hel
+    simp only [List.length_cons] at hacc
+    unfold Safe_rangeCardLoop
+    unfold Container.len Container.rank
+    split
+    · refine ⟨by show _ < 2^64; omega, safe_rangeCardLoop ek el hel cs _ (fun d hd => h d (by simp [hd])) (by omega)⟩
+    · split
+      · exact ⟨Store.safe_rank _ hc _ hel, by show _ < 2^64; omega⟩
+      · trivial
+
+theorem convertRange_bounds (lo hi : Bound) (hlo : Bound.le u32Max lo) (hhi : Bound.le u32Max hi) (st en : Nat)
+    (h : convertRange u32Max lo hi = .ok (st, en)) : st ≤ en ∧ en < 4294967296 := by
+  have := Spec.interval_some u32Max lo hi st en (convertRange_ok u32Max lo hi hlo hhi st en h)
+  have hm : u32Max = 4294967295 := rfl
+  omega
+
+theorem safe_rangeCardinality (b : Bitmap) (h : b.WF) (lo hi : Bound)
+    (hlo : Bound.le u32Max lo) (hhi : Bound.le u32Max hi) : Safe_rangeCardinality b lo hi := by
+  unfold Safe_rangeCardinality
+  cases hc : convertRange u32Max lo hi with
+  | error e => trivial
+  | ok r =>
+    obtain ⟨st, en⟩ := r
+    obtain ⟨hse, hen⟩ := convertRange_bounds lo hi hlo hhi st en hc
+    have hlen := wf_length_le b h
+    have hs := safe_search b (hi16 st)
+    have hel : lo16 en < 65536 := by unfold lo16; omega
+    simp only []
+    refine ⟨hs, ?_⟩
+    cases hsr : search b (hi16 st) with
+    | mk f i =>
+      unfold Safe_search at hs; rw [hsr] at hs
+      cases f with
+      | false =>
+        simp only []
+        apply safe_rangeCardLoop _ _ hel _ _ (storesInv_drop h.storesInv i)
+        simp only [List.length_drop]; omega
+      | true =>
+        have hi : i < b.length := hs.2 rfl
+        simp only [List.getElem?_eq_getElem hi]
+        have hcI : b[i].store.Inv := h.storesInv _ (List.getElem_mem hi)
+        have h2 := Store.len_le _ hcI
+        have hr1 := Store.rank_le_len _ hcI _ hel
+        refine ⟨fun _ => Store.safe_rank _ hcI _ hel, ?_, by omega, ?_⟩
+        · intro hsl
+          have hsl1 : lo16 st - 1 < 65536 := by unfold lo16; omega
+          refine ⟨by omega, Store.safe_rank _ hcI _ hsl1, ?_⟩
+          unfold Container.rank Container.len
+          split
+          · rename_i hk
+            apply Store.rank_mono _ hcI _ _ _ hel
+            unfold hi16 at hk; unfold lo16; omega
+          · exact Store.rank_le_len _ hcI _ hsl1
+        · apply safe_rangeCardLoop _ _ hel _ _ (storesInv_drop h.storesInv _)
+          simp only [List.length_drop]
+          unfold Container.rank Container.len
+          split <;> split <;> omega
+
+theorem safe_containsRange (b : Bitmap) (h : b.WF) (lo hi : Bound)
+    (hlo : Bound.le u32Max lo) (hhi : Bound.le u32Max hi) : Safe_containsRange b lo hi := by
+  unfold Safe_containsRange
+  cases hc : convertRange u32Max lo hi with
+  | error e => trivial
+  | ok r =>
+    obtain ⟨st, en⟩ := r
+    obtain ⟨hse, hen⟩ := convertRange_bounds lo hi hlo hhi st en hc
+    have hs := safe_search b (hi16 st)
+    have hel : lo16 en < 65536 := by unfold lo16; omega
+    have hsl : lo16 st < 65536 := by unfold lo16; omega
+    have hhh : hi16 st ≤ hi16 en := by unfold hi16; exact Nat.div_le_div_right hse
+    simp only []
+    refine ⟨hhh, hs, ?_⟩
+    cases hsr : search b (hi16 st) with
+    | mk f i =>
+      unfold Safe_search at hs; rw [hsr] at hs
+      cases f with
+      | false => trivial
+      | true =>
+        have hi : i < b.length := hs.2 rfl
+        simp only []
+        cases hd : b.drop i with
+        | nil =>
+          have := congrArg List.length hd
+          simp only [List.length_drop, List.length_nil] at this
+          omega
+        | cons first rest =>
+          have hfirst : first ∈ b := List.mem_of_mem_drop (by rw [hd]; simp)
+          have hfI := h.storesInv first hfirst
+          simp only []
+          split
+          · rename_i hk
+            apply Store.safe_containsRange _ hfI _ _ _ hel
+            unfold hi16 at hk; unfold lo16; omega
+          · rename_i hk
+            refine ⟨Store.safe_containsRange _ hfI _ _ (by omega) (by omega), by omega, ?_⟩
+            split
+            · rename_i last hl
+              have hlast : last ∈ b := by
+                have : last ∈ first :: rest := List.mem_of_getElem? hl
+                rw [← hd] at this
+                exact List.mem_of_mem_drop this
+              exact Store.safe_containsRange _ (h.storesInv last hlast) _ _ (by omega) hel
+            · trivial
+
+theorem safe_insertRangeCount (b : Bitmap) (h : b.WF) (lo hi : Bound)
+    (hlo : Bound.le u32Max lo) (hhi : Bound.le u32Max hi) : Safe_insertRangeCount b lo hi := by
+  unfold Safe_insertRangeCount
+  rw [(insertRange_spec b h lo hi hlo hhi).2.2]
+  unfold Spec.insertRange
+  cases hi' : Spec.interval u32Max lo hi with
+  | none => show 0 < 2^64; omega
+  | some p =>
+    obtain ⟨a, c⟩ := p
+    have := Spec.interval_some u32Max lo hi a c hi'
+    have hm : u32Max = 4294967295 := rfl
+    unfold Spec.insertIv
+    show _ < 2^64
+    simp only []
+    omega
+
+theorem safe_removeRangeCount (b : Bitmap) (h : b.WF) (lo hi : Bound)
+    (hlo : Bound.le u32Max lo) (hhi : Bound.le u32Max hi) : Safe_removeRangeCount b lo hi := by
+  unfold Safe_removeRangeCount
+  rw [(removeRange_spec b h lo hi hlo hhi).2.2]
+  unfold Spec.removeRange
+  cases hi' : Spec.interval u32Max lo hi with
+  | none => show 0 < 2^64; omega
+  | some p =>
+    obtain ⟨a, c⟩ := p
+    unfold Spec.removeIv
+    have h1 : ((elems b).filter (fun x => decide (a ≤ x) && decide (x ≤ c))).length ≤ (elems b).length :=
+      List.length_filter_le _ _
+    have h2 := wf_len_le b h
+    rw [len_spec b h] at h2
+    show _ < 2^64
+    simp only []
+    omega
+
+end Bitmap
 end Roaring
